@@ -303,13 +303,16 @@ class KaniCrate:
         entries = []
         for m in re.finditer(r"^(.*?) /\* (\S+?)[,\s]", out, re.M):
             pretty, mangled = m.group(1), m.group(2)
-            for rx, bound in rules:
+            for rule in rules:
+                rx, bound = rule[0], rule[1]
+                loop_bound = rule[2] if len(rule) > 2 else (bound if bound > 1 else None)
                 if re.search(rx, pretty):
                     entries.append("%s:%d" % (mangled, bound))  # recursion bound
-                    if bound > 1:
-                        entries += ["%s.%d:%d" % (mangled, k, bound) for k in range(4)]  # loops of that function
+                    if loop_bound:
+                        entries += ["%s.%d:%d" % (mangled, k, loop_bound) for k in range(4)]  # loops of that function
                     break
-        for rx, bound in rules:
+        for rule in rules:
+            rx, bound = rule[0], rule[1]
             if rx == "^memcmp$":
                 entries.append("memcmp.0:%d" % bound)
         return ",".join(sorted(set(entries))) if entries else None
